@@ -57,9 +57,21 @@ def aliasing(refs):
     return False
 
 
+def mentioned(q):
+    k = q[0]
+    if k in ('ref', 'mut'): return {q[1]}
+    if k == 'tuple': return set().union(*[mentioned(x) for x in q[1]]) if q[1] else set()
+    if k == 'eid': return set()
+    out = set()
+    for x in q[1:]: out |= mentioned(x)
+    return out
+
+
 def must_accept(qs):
-    for n in range(NCOMP + 1):
-        for a in itertools.combinations(range(NCOMP), n):
+    # only the components the queries mention matter: every component set agrees on them with one of their subsets
+    comps = sorted(set().union(*[mentioned(q) for q in qs])) if qs else []
+    for n in range(len(comps) + 1):
+        for a in itertools.combinations(comps, n):
             a = set(a)
             refs = [r for q in qs if qmatch(a, q) for r in srefs(a, q)]
             if aliasing(refs):
@@ -122,5 +134,5 @@ def run(tier, seed, ctx):
                     break
             if violations: break
     cov = dict(c05_receiver_pairs=len(recv_cases), c05_pair_handlers=len(cases), c05_pair_accepted=n_acc // 2, c05_pair_rejected=n_rej // 2,
-               c05_pair_rule='every single registry query and every unordered pair of the %d registry queries as Fetcher parameters of one handler; verdict of World::add_handler (debug and release) compared with the aliasing semantics evaluated over all 64 component sets' % len(qs))
+               c05_pair_rule='every single registry query and every unordered pair of the %d registry queries as Fetcher parameters of one handler; verdict of World::add_handler (debug and release) compared with the aliasing semantics evaluated over every subset of the components the queries mention' % len(qs))
     return violations[:1], cov
